@@ -138,9 +138,22 @@ class AsyncStateMachine:
             else:
                 self.reader = self.tlsConnection.readAsync(16384)
                 self._doReadOp()
+                # records already read ahead from the socket won't cause
+                # another read event, so deliver them now
+                while self._read_ahead_pending():
+                    self.reader = self.tlsConnection.readAsync(16384)
+                    self._doReadOp()
         except:
             self._clear()
             raise
+
+    def _read_ahead_pending(self):
+        """Check if no operation is active but received data is buffered."""
+        if self.handshaker or self.closer or self.reader or self.writer:
+            return False
+        if self.tlsConnection.closed:
+            return False
+        return bool(getattr(self.tlsConnection.sock, "_read_buffer", None))
 
     def inWriteEvent(self):
         """Tell the state machine it can write to the socket."""
